@@ -310,3 +310,71 @@ LEMMAS = {'N3': dict(jobs=jobs_N3, run=run_N3, units=['a64'], a64=True,
     stubs=['h_* emitters := no bytes (N1)', 'mmap := ghost heap', 'A64 semantics: engine/a64sem.py + the vector pair / AES forms in this module (AESE/AESMC/AESD/AESIMC over the FIPS-197 functions of spec/aes_ref.py)', 'ld.lld resolves the branches between the runtime\'s global labels'],
     outside='software-AES variant of the v2 F/E mix')}
 UNITS = UNITS
+
+# ------------------------------------------------------------------------------------------------ N6: randomx_init_dataset_aarch64 (the loop around the item function)
+def run_N6(ctx, case):
+    """randomx_init_dataset_aarch64(cache, dataset, startItem, endItem): calls the item function once per item with the right item number and output address
+    (items startItem..endItem-1 at dataset + 64*(item - startItem)), restores x20/x30/sp; the item function is an abstract call with the contract N5 proves"""
+    q = Q(60); syms, text = a64_linked(ctx['tag'] + '-n6-%d' % os.getpid()); npaths = [0]
+    ENTRY = syms['randomx_init_dataset_aarch64']; ITEM = syms['randomx_calc_dataset_item_aarch64']; tag = 'randomx_init_dataset_aarch64'
+    DSI = [z3.Function('DSI%d' % k, z3.BitVecSort(64), z3.BitVecSort(64)) for k in range(8)]
+    start = z3.BitVec('startItem', 64); count = z3.BitVec('itemCount', 64)
+    class Ctx:
+        pass
+    def one(fk):
+        it = Interp(Module(ctx['ll']['a64'])); it.fork = fk; fk['pc'] += [z3.UGE(count, 1), z3.ULE(count, 3), z3.ULT(start, 1 << 32)]
+        mem = Mem(); mem.alloc(len(text), 'code')
+        for k, b in enumerate(text): mem.objs['code']['bytes'][k] = b
+        mem.mkarr('dataset', P.DATASET_BASE + P.DATASET_EXTRA); D0 = mem.objs['dataset']['arr']; mem.alloc(64, 'cacheobj'); mem.alloc(64, 'cachemem'); mem.store(Ptr('cacheobj', 0), Ptr('cachemem', 0), 8); mem.share('cacheobj', 'cachemem')
+        STK = 128; mem.alloc(STK + 16, 'stack')
+        for k in range(0, STK + 16, 8): mem.store(Ptr('stack', k), z3.BitVec('stk%d' % k, 64), 8)
+        m = FrameMachine(mem, 'code', it); entry = {r: z3.BitVec('x%d_entry' % r, 64) for r in range(31)}
+        for r in range(31): m.x[r] = entry[r]
+        dsoff = z3.BitVec('dataset_off', 64); fk['pc'] += [z3.ULE(dsoff, P.DATASET_BASE + P.DATASET_EXTRA), z3.ULE(dsoff + 64 * count, P.DATASET_BASE + P.DATASET_EXTRA)]
+        m.x[0] = Ptr('cacheobj', 0); m.x[1] = Ptr('dataset', dsoff); m.x[2] = start; m.x[3] = start + count; m.x[30] = Ptr('caller', 0); m.sp = Ptr('stack', STK); m.fpcr = z3.BitVec('fpcr', 64)
+        calls = []
+        def chk(c, what):
+            q.n += 1; q.unsat += bool(c); q.sat += (not c)
+            if not c: q.failed.append(('%s: %s' % (tag, what), {}))
+        try:
+            m.pc = ENTRY; steps = 0
+            while True:
+                if m.pc == ITEM:
+                    out = m.x[1]; calls.append((m.x[0], out, m.x[2]))
+                    if not isinstance(out, Ptr): raise Fault('item function called with a non-pointer output')
+                    for k in range(8): m.store(m.padd(out, 8 * k), DSI[k](bv(m.x[2], 64)), 8)
+                    m.x[20] = z3.BitVec('x20_clobbered_%d' % len(calls), 64); m.fl = dict(N=None, Z=None, C=None, V=None); m.pc = m.x[30].off; continue
+                r = m.step(); steps += 1
+                if steps > 200: raise Fault('step bound exceeded (unwinding assertion)')
+                if r is None: continue
+                if r[0] == 'ret': retv = r[1]; break
+                if r[0] == 'jmp': m.pc = r[1]
+                elif r[0] == 'jcc':
+                    if m.decide(r[1]): m.pc = r[2]
+        except (Fault, OOB) as e:
+            chk(False, 'does not execute: %s' % e); return
+        npaths[0] += 1; pc = fk['pc']
+        sol = z3.Solver(); sol.add(*pc); sol.check(); n = sol.model().eval(count, model_completion=True).as_long()
+        q.prove(pc, count == n, '%s: this path initialises exactly %d item(s)' % (tag, n))
+        chk(len(calls) == n, 'one call of the item function per item (%d calls for %d items)' % (len(calls), n))
+        exp = D0
+        for k_, (c0, out, itm) in enumerate(calls[:n]):
+            chk(isinstance(c0, Ptr) and c0.obj == 'cachemem' and c0.off == 0, 'call %d: x0 = cache memory' % k_)
+            q.prove_eq(pc, itm, start + k_, '%s: call %d: item number = startItem + %d' % (tag, k_, k_), 64)
+            if isinstance(out, Ptr) and out.obj == 'dataset': q.prove_eq(pc, bv(out.off, 64), dsoff + 64 * k_, '%s: call %d: output at dataset + 64*%d' % (tag, k_, k_), 64)
+            else: chk(False, 'call %d: output pointer is not in the dataset' % k_)
+            for w in range(8):
+                for b_ in range(8): exp = z3.Store(exp, dsoff + 64 * k_ + 8 * w + b_, z3.Extract(8 * b_ + 7, 8 * b_, DSI[w](start + k_)))
+        q.prove_array_eq(pc, mem.objs['dataset']['arr'], exp, '%s: dataset after the call == the items at memory + 64*(item - startItem), nothing else written' % tag)
+        chk(isinstance(retv, Ptr) and retv.obj == 'caller', 'returns to the caller')
+        q.prove_eq(pc, m.x[20], entry[20], '%s: x20 restored' % tag, 64)
+        chk(isinstance(m.sp, Ptr) and m.sp.obj == 'stack' and m.sp.off == STK, 'stack pointer restored')
+        extent_checks(q, pc, mem, tag)
+    res, nq = explore(one, limit=8); q.n += nq
+    ok = npaths[0] == 3; q.n += 1; q.unsat += ok; q.sat += (not ok)
+    if not ok: q.failed.append(('%s: expected the 1-, 2- and 3-item paths, got %d' % (tag, npaths[0]), {}))
+    return result('N6', tag, q, paths=npaths[0])
+
+LEMMAS['N6'] = dict(jobs=lambda ctx: ['init_dataset'], run=run_N6, units=['a64'], a64=True, functions=['assembled runtime: randomx_init_dataset_aarch64'],
+    doc='the dataset initialiser of the ARM64 runtime: one call of the item function per item of [startItem, endItem) with the right item number, cache pointer and output address; exactly the requested 64*count bytes written; x20, x30 and sp restored',
+    bound='1 to 3 items (loop body identical for every item), symbolic start and dataset address', symbolic='startItem, itemCount, dataset offset, entry registers, stack content', stubs=['item function := abstract call with the contract N5 proves'])
